@@ -229,7 +229,11 @@ size_t Decode(const char *base64_ptr, size_t base64_len, void *raw_data_ptr, siz
         if (c == BASE64_PAD)
             break;
 
-        uint8_t v = base64de[int(c)];
+        //! bytes >= 0x80 are outside the table (and negative as char)
+        if (static_cast<uint8_t>(c) >= sizeof(base64de))
+            return 0;
+
+        uint8_t v = base64de[static_cast<uint8_t>(c)];
         if (v == 255)
             return 0;
 
@@ -274,7 +278,11 @@ size_t Decode(const std::string &base64_str, std::vector<uint8_t> &raw_data)
         if (c == BASE64_PAD)
             break;
 
-        uint8_t v = base64de[int(c)];
+        //! bytes >= 0x80 are outside the table (and negative as char)
+        if (static_cast<uint8_t>(c) >= sizeof(base64de))
+            return 0;
+
+        uint8_t v = base64de[static_cast<uint8_t>(c)];
         if (v == 255)
             return 0;
 
